@@ -14,6 +14,7 @@ import (
 	"crypto/sha256"
 	"fmt"
 	"io"
+	"math"
 	"math/rand/v2"
 	"os"
 	"os/exec"
@@ -21,6 +22,7 @@ import (
 	"sort"
 	"strings"
 	"sync"
+	"time"
 
 	"seehuhn.de/go/postscript"
 	"seehuhn.de/go/postscript/afm"
@@ -87,6 +89,26 @@ type c17Value struct {
 	dupAFM []byte
 	// font files that register more than one entry in the font directory
 	multiFont [][]byte
+	// histFont is a different font that some child processes write BEFORE they
+	// compute the digests: its numbers lie within 4e-7 of numbers of font, on the
+	// other side of a point where the best quotient p/q (q <= 107) changes
+	histFont *type1.Font
+}
+
+// fareyMidpoint returns the midpoint between the two neighbours of t among the
+// fractions with denominators up to 107: the point where the nearest such
+// fraction changes.
+func fareyMidpoint(t float64) float64 {
+	lo, hi := 0.0, 1.0
+	for q := 1; q <= 107; q++ {
+		if a := math.Floor(t*float64(q)) / float64(q); a > lo && a <= t {
+			lo = a
+		}
+		if b := math.Ceil(t*float64(q)) / float64(q); b < hi && b >= t && b > lo {
+			hi = b
+		}
+	}
+	return (lo + hi) / 2
 }
 
 func genC17Value(c *rt.C, quick bool) c17Value {
@@ -99,6 +121,21 @@ func genC17Value(c *rt.C, quick bool) c17Value {
 	v.font = genFont(rng, o)
 	for len(v.font.Glyphs) < 50 {
 		v.font.Glyphs[fmt.Sprintf("extra%d", len(v.font.Glyphs))] = genGlyph(rng, o)
+	}
+	v.histFont = &type1.Font{FontInfo: &type1.FontInfo{FontName: "History", FontMatrix: v.font.FontMatrix}, Private: &type1.PrivateDict{BlueScale: 0.039625, BlueShift: 7, BlueFuzz: 1},
+		Glyphs: map[string]*type1.Glyph{".notdef": {WidthX: 500}}}
+	for i := 0; i < 12; i++ {
+		base := float64(rng.IntN(2001) - 1000)
+		m := fareyMidpoint(0.02 + 0.96*rng.Float64())
+		gf, gh := &type1.Glyph{WidthX: 600}, &type1.Glyph{WidthX: 600}
+		gf.MoveTo(base+m+2e-7, 0)
+		gf.LineTo(base+m+2e-7+10, 10+m+2e-7)
+		gf.ClosePath()
+		gh.MoveTo(base+m-2e-7, 0)
+		gh.LineTo(base+m-2e-7+10, 10+m-2e-7)
+		gh.ClosePath()
+		v.font.Glyphs[fmt.Sprintf("straddle%d", i)] = gf
+		v.histFont.Glyphs[fmt.Sprintf("straddle%d", i)] = gh
 	}
 	ao := &afmOpts{representable: true}
 	v.metrics = genMetrics(rng, ao, 120)
@@ -276,8 +313,57 @@ func c17FailedWrites(v c17Value, rng *rand.Rand, round int) {
 	}
 }
 
+// stallReader delivers its data in two halves and sleeps before the second one.
+type stallReader struct {
+	data  []byte
+	off   int
+	stall time.Duration
+}
+
+func (s *stallReader) Read(p []byte) (int, error) {
+	if s.off >= len(s.data) {
+		return 0, io.EOF
+	}
+	end := len(s.data)
+	if s.off < len(s.data)/2 {
+		end = len(s.data) / 2
+	} else if s.stall > 0 {
+		time.Sleep(s.stall)
+		s.stall = 0
+	}
+	n := copy(p, s.data[s.off:end])
+	s.off += n
+	rt.Progress.Add(1)
+	return n, nil
+}
+
 func runC17(r *rt.Runner) {
 	emit := os.Getenv("VERIF_C17_EMIT") == "1"
+	if !r.Quick() && !emit {
+		// thorough tier only (it costs the stall in wall-clock time): a source that
+		// stalls for a while in the middle of a file gives the same result as one
+		// that does not - nothing observable depends on the wall clock
+		for _, stall := range []time.Duration{1500 * time.Millisecond, 12 * time.Second} {
+			stall := stall
+			r.Case("stalled-source", func(c *rt.C) {
+				v := genC17Value(c, true)
+				var pfa bytes.Buffer
+				v.font.Write(&pfa, &type1.WriterOptions{Format: type1.FormatPFA})
+				f0, err0 := type1.Read(bytes.NewReader(pfa.Bytes()))
+				f1, err1 := type1.Read(&stallReader{data: pfa.Bytes(), stall: stall})
+				if fontDigest(f0) != fontDigest(f1) || fmt.Sprint(err0) != fmt.Sprint(err1) {
+					c.Violation("stalled-source|type1.Read", fmt.Sprintf("reading the same bytes from a source that stalls for %v differs: %s / %v against %s / %v", stall, fontDigest(f1), err1, fontDigest(f0), err0), "")
+				}
+				d0, e0 := postscript.ReadCMap(bytes.NewReader(v.cmap))
+				d1, e1 := postscript.ReadCMap(&stallReader{data: v.cmap, stall: stall})
+				if fmt.Sprint(d0["CMapName"], e0) != fmt.Sprint(d1["CMapName"], e1) {
+					c.Violation("stalled-source|ReadCMap", fmt.Sprintf("reading the same CMap bytes from a source that stalls for %v differs: %v / %v against %v / %v", stall, d1["CMapName"], e1, d0["CMapName"], e0), "")
+				}
+				c.Count("reads from a source that stalls")
+				c.Nontrivial([]byte(fmt.Sprintf("stall|%v", stall)), func() string { return fmt.Sprintf("source stalling for %v", stall) })
+			})
+		}
+	}
 	nVals := r.N(96, 800)
 	repeats := r.N(12, 30)
 	children := r.N(4, 10)
@@ -285,6 +371,14 @@ func runC17(r *rt.Runner) {
 		r.Case("value", func(c *rt.C) {
 			rng := c.Rand()
 			v := genC17Value(c, r.Quick())
+			if emit && os.Getenv("VERIF_C17_HISTORY") == "1" {
+				// this process has written another font before: nothing of that may
+				// show in what it writes now
+				for _, fm := range allFormats {
+					v.histFont.Write(io.Discard, &type1.WriterOptions{Format: fm.f})
+				}
+				v.histFont.WritePDF(io.Discard)
+			}
 			ref0 := c17Digests(v)
 			if emit {
 				for _, l := range ref0 {
@@ -353,6 +447,10 @@ func runC17(r *rt.Runner) {
 				logPath := filepath.Join(r.LogDir, fmt.Sprintf("c17-child-%d-%d.log", c.Seq, p))
 				cmd := exec.Command(exe, "-prop", "C17", "-tier", r.Tier, "-seed", fmt.Sprint(r.Seed), "-only", fmt.Sprint(c.Seq), "-log", logPath, "-noprogress", "0")
 				cmd.Env = append(os.Environ(), "VERIF_C17_EMIT=1")
+				if p%2 == 1 {
+					cmd.Env = append(cmd.Env, "VERIF_C17_HISTORY=1")
+					c.Count("fresh child processes that wrote another font first")
+				}
 				outB, err := cmd.Output()
 				os.Remove(logPath)
 				os.Remove(logPath + ".hashes")
